@@ -81,8 +81,8 @@ def r1_roles(idx, r):
     for s in iter_stores(g.node):
         if isinstance(s.node, ast.Name) and s.value is not None:
             env.setdefault(s.attr, []).append(s)
-    den = env.get("denominator", [])
-    conds = {norm(s.value): [(norm(t), p) for t, p in path_conditions(g.node, s.stmt) if "isVolIntegrated" in norm(t)] for s in den}
+    from ..astutil import cond_values
+    conds = {norm(v): [(norm(t), p) for t, p in c_ if "isVolIntegrated" in norm(t)] for v, c_ in cond_values(g.node, "denominator")}
     r.require(conds == {"sourceBlockHeight": [("paramMapper.isVolIntegrated[paramName]", True)], "destinationBlockHeight": [("paramMapper.isVolIntegrated[paramName]", False)]}, "state:denominators", g,
               msg=f"volume-integrated parameters scale by overlap/SOURCE height (totals conserved), all others by overlap/DESTINATION height (height-weighted mean): {conds}")
     srcs = {k: norm(v[0].value) for k, v in env.items() if k in ("sourceBlockHeight", "destinationBlockHeight", "integrationFactor", "zLower", "zUpper")}
@@ -244,7 +244,8 @@ def r4_mesh_filter(idx, r):
     r.require(d is not None and norm(d.value) == "abs(meshList[i + 1] - meshList[i])", "cell-width", f, msg="cell width is the distance of adjacent points")
     pop = [c for c in iter_calls(wl) if norm(c.func) == "meshList.pop"]
     r.require(len(pop) == 1 and norm(pop[0].args[0]) == "removeIndex" and not any(pop[0] in list(ast.walk(x)) for x in [fl]), "one-removal-per-scan", f, msg="exactly one point is removed after each interrupted scan")
-    ri = {norm(s.value): [(norm(t), p) for t, p in path_conditions(ast.Module(body=fl.body, type_ignores=[]), s.stmt) if "anchorPoints" in norm(t)] for s in iter_stores(fl) if s.attr == "removeIndex"}
+    from ..astutil import cond_values
+    ri = {norm(v): [(norm(t), p) for t, p in c_ if "anchorPoints" in norm(t)] for v, c_ in cond_values(ast.Module(body=fl.body, type_ignores=[]), "removeIndex")}
     r.require(ri == {"i": [("meshList[i] in anchorPoints and meshList[i + 1] in anchorPoints", False), ("meshList[i + 1] in anchorPoints", True)], "i + 1": [("meshList[i] in anchorPoints and meshList[i + 1] in anchorPoints", False), ("meshList[i + 1] in anchorPoints", False)]},
               "anchors-kept", f, msg=f"the non-anchor point of a thin cell is removed (the later one when neither is an anchor): {ri}")
     both = next((n for n in walk_local(fl) if isinstance(n, ast.If) and norm(n.test) == "meshList[i] in anchorPoints and meshList[i + 1] in anchorPoints"), None)
